@@ -765,6 +765,19 @@ func runR31(c *Ctx) {
 				c.bad(key, pos, "error result of a deferred/go call is discarded")
 				return
 			}
+			// a callee that cannot fail: every function the call may reach is a module function all of whose
+			// returns carry a nil error (the Rolling stubs) - there is nothing to propagate
+			if r31CannotFail(p, call) {
+				c.okTrivial(key, pos, "every function this call can reach returns a nil error on all paths")
+				return
+			}
+			// a failure that stays with the writer: encoding/csv.Writer keeps the first error of its buffered writer
+			// and reports it again from Error(); where the same writer's Error() is consulted in this function (R30
+			// decides that it is, on every path to success) the individual Write results add nothing
+			if obj != nil && isFuncNamed(obj, "encoding/csv", "Writer", "Write") && r31WriterErrorConsulted(call) {
+				c.okTrivial(key, pos, "csv.Writer keeps its first error; the function consults the same writer's Error()")
+				return
+			}
 			vals, dropped := errValuesOfCall(call)
 			if dropped {
 				c.bad(key, pos, "error result is never bound: failure is silently dropped")
@@ -782,6 +795,84 @@ func runR31(c *Ctx) {
 	c.note("exempted_calls", exempted)
 	r31SuccessAfterUnchecked(c)
 	r31DeferredOverwrite(c)
+}
+
+// r31CannotFail: every function the call may reach is a module function whose error result is the nil constant
+// on every return.
+func r31CannotFail(p *Prog, call *ssa.Call) bool {
+	callees := p.resolver().callees(call)
+	if len(callees) == 0 {
+		return false
+	}
+	if call.Call.IsInvoke() {
+		// an interface of the module that cannot be implemented outside it? only when a method mentions an
+		// internal type; otherwise a foreign implementation may fail
+		iface, _ := call.Call.Value.Type().Underlying().(*types.Interface)
+		if iface == nil || !mentionsInternalType(iface) {
+			return false
+		}
+	} else if call.Call.StaticCallee() == nil {
+		return false
+	}
+	for _, callee := range callees {
+		if callee.Blocks == nil || callee.Pkg == nil || !inModule(callee.Pkg.Pkg) {
+			return false
+		}
+		ei := errResultIndex(callee.Signature)
+		if ei < 0 {
+			return false
+		}
+		n, all := 0, true
+		eachInstr(callee, func(in ssa.Instruction) {
+			if r, ok := in.(*ssa.Return); ok {
+				n++
+				if cst, ok := unspillResult(r, r.Results[ei]).(*ssa.Const); !ok || !cst.IsNil() {
+					all = false
+				}
+			}
+		})
+		if n == 0 || !all {
+			return false
+		}
+	}
+	return true
+}
+
+// mentionsInternalType: some method of the interface has a parameter or result type declared in an internal/
+// package of the module, so no package outside the module can implement it.
+func mentionsInternalType(iface *types.Interface) bool {
+	for i := 0; i < iface.NumMethods(); i++ {
+		sig := iface.Method(i).Type().(*types.Signature)
+		for _, tup := range []*types.Tuple{sig.Params(), sig.Results()} {
+			for j := 0; j < tup.Len(); j++ {
+				if n, ok := deref(tup.At(j).Type()).(*types.Named); ok && n.Obj().Pkg() != nil && strings.Contains(n.Obj().Pkg().Path(), "/internal/") {
+					return true
+				}
+			}
+		}
+	}
+	return false
+}
+
+// r31WriterErrorConsulted: the function also calls Error() on the writer this Write call is made on.
+func r31WriterErrorConsulted(call *ssa.Call) bool {
+	if len(call.Call.Args) == 0 {
+		return false
+	}
+	w := call.Call.Args[0]
+	found := false
+	eachInstr(call.Parent(), func(in ssa.Instruction) {
+		c2, ok := in.(*ssa.Call)
+		if !ok || !isFuncNamed(calleeObj(c2), "encoding/csv", "Writer", "Error") || len(c2.Call.Args) == 0 {
+			return
+		}
+		if c2.Call.Args[0] == w || accessPath(c2.Call.Args[0]) != "" && accessPath(c2.Call.Args[0]) == accessPath(w) {
+			if valueMatters(c2, 0) {
+				found = true
+			}
+		}
+	})
+	return found
 }
 
 // r31SuccessAfterUnchecked (clause b): in a function that itself returns an error, no return with a nil
